@@ -126,6 +126,7 @@ static void run_cmd(const sim::Cmd &c, sim::Out &out)
   int units_read = 0;
   bool ended = false;
   bool primary_nested = false;
+  bool witness_late_unification = false;
   bool resolve_unchanged = false; // the negative answer came from re-solving an unchanged problem (see KF-P5)
   int last_solved_unit = -1;
   int verdict = -1; // of the whole history: 1 = every solve() succeeded, 0 = a negative answer, -1 = none (discarded, violation)
@@ -326,6 +327,25 @@ static void run_cmd(const sim::Cmd &c, sim::Out &out)
           continue;
         }
         witness_nested = ck2.nested_zero_length;
+        // does the witness unify some atom with one that the history read only after a solve() had already run?
+        if (verdict == 0 && last_solved_unit >= 0)
+        {
+          std::set<const ratio::atom *> late;
+          int unit = 0;
+          ratio::env *top2 = static_cast<ratio::core *>(s2);
+          Checker::Locals none2;
+          for (auto &st : b.m.stmts)
+          {
+            if (st.k == Stmt::CUT)
+              ++unit;
+            else if (st.k == Stmt::FORMULA && unit > last_solved_unit)
+              if (auto *la = dynamic_cast<ratio::atom *>(ck2.resolve(top2, none2, {st.item->local})))
+                late.insert(la);
+          }
+          for (auto &up : ck2.unified_pairs)
+            if (late.count(up.second))
+              witness_late_unification = true;
+        }
       }
       if (v2 == verdict)
       {
@@ -341,6 +361,8 @@ static void run_cmd(const sim::Cmd &c, sim::Out &out)
         msg = "the problem was solved (and the solution checks) but the same problem, " + how_variant + ", is answered '" + how2 + "' | problem: " + whole;
       if (witness_nested)
         msg = "[the witness places a zero-length atom strictly inside another atom of the same state variable] " + msg;
+      if (verdict == 0 && witness_late_unification)
+        msg = "[the witness unifies a sub-goal with an atom that the history read only after a solve() had expanded that sub-goal] " + msg;
       if (verdict == 0 && resolve_unchanged)
         msg = "[solve() answered false when it was called again, after a successful solve() and a return to root level, on a problem nothing had been added to] " + msg;
       PViolation v{"P7", "P7.equivalent_formulations_differ", msg};
